@@ -70,6 +70,17 @@ GInit ==
   \* in order (adjacent repeats included): dedicated index-path cases
   /\ \A p \in PatternsOf("tok") : \A c \in {"multi", "optional", "full"} : \A m \in {x \in Merges : x.perm = "identity" /\ x.keep # 30} :
        PrintT(<<"CASE", ToJson([what |-> "tokcol", pattern |-> p, card |-> c, merge |-> m])>>)
+  \* huge sparse tables: more than FindBlockLinearMax blocks of rows, a handful of values placed so that whole blocks are
+  \* empty before / between / after them, values on block boundaries; two such tables are stack-merged
+  /\ LET R == OptionalBlockRows
+         Placements == [edges |-> {R - 1, R, (FindBlockLinearMax * R) - 1, FindBlockLinearMax * R, 18 * R + 5},
+                        late |-> {17 * R, 17 * R + 1, 19 * R - 1},
+                        spread |-> {7, 3 * R + 7, 9 * R, 17 * R + 7, 19 * R + 7},
+                        first_last |-> {0, 20 * R - 1 - 70000},
+                        one |-> {18 * R + 123}]
+     IN \A pa \in DOMAIN Placements : \A pb \in DOMAIN Placements : \A n \in {17 * R + 5, 20 * R - 70000} :
+          PrintT(<<"CASE", ToJson([what |-> "huge", nrows |-> n, a |-> pa, b |-> pb,
+                                    rows_a |-> {r \in Placements[pa] : r < n}, rows_b |-> {r \in Placements[pb] : r < n}])>>)
 GNext == done' = TRUE /\ UNCHANGED cvars
 GSpec == GInit /\ [][GNext]_<<done, cvars>>
 =============================================================================
